@@ -35,6 +35,7 @@ pub fn check_token(wt: &WTok) -> CheckResult {
     if let Some(d) = diff_maps(&wm, &espada_map(&r)) {
         return Err(Fail::new(format!("range-meaning:{}", shape_of(&wt.tok)), format!("range {:?}: {}", text, d)));
     }
+    vensure!(r.card_pairs().len() == wm.len(), "range-holds-combo-twice", "range {:?} holds {} entries for {} distinct combos", text, r.card_pairs().len(), wm.len());
     Ok(Outcome::new(true, hash_str(&text), 1 << shape_ix(&wt.tok) | if wt.weight.is_some() { 1 << 7 } else { 0 }))
 }
 
@@ -92,6 +93,7 @@ pub fn check_list(c: &ListCase) -> CheckResult {
     };
     let want = model_of_tokens(&c.toks);
     let got = espada_map(&r);
+    vensure!(r.card_pairs().len() == got.len(), "range-holds-combo-twice", "range {:?} holds {} entries for {} distinct combos (a combo is stored under two different keys)", text, r.card_pairs().len(), got.len());
     if let Some(d) = diff_maps(&want, &got) {
         return Err(Fail::new("list-meaning", format!("range {:?} should hold {} combos (later token wins on overlap, spaces ignored): {} (espada holds {} combos)", text, want.len(), d, got.len())));
     }
